@@ -10,7 +10,18 @@ import (
 // verifC13Pool: whatever the pooled object contained, the request handed to the
 // engines equals a freshly allocated one.
 func verifC13Pool(hostLen int) {
-	d := &DNSEngine{}
+	var d *DNSEngine
+	if verifSymbolic() {
+		d = &DNSEngine{} // the pool is replaced: Get hands out an object with arbitrary contents
+	} else {
+		// native replay: a real engine whose pool holds the object of the model
+		s, err := filterlist.NewRuleStorage(nil)
+		if err != nil {
+			panic(err)
+		}
+		d = NewDNSEngine(s)
+		d.pool.Put(rules.VerifGarbageRequest("pooled"))
+	}
 	q := &DNSRequest{
 		Hostname:         verifString("host", hostLen, "zq."),
 		ClientName:       verifString("q.client", 1, "ab"),
